@@ -42,6 +42,17 @@ func whatLacks(subs ...string) func(o report.Obligation) bool {
 	return func(o report.Obligation) bool { return !f(o) }
 }
 
+func posLacks(subs ...string) func(o report.Obligation) bool {
+	return func(o report.Obligation) bool {
+		for _, s := range subs {
+			if strings.Contains(o.Pos, s) {
+				return false
+			}
+		}
+		return true
+	}
+}
+
 func funcHas(subs ...string) func(o report.Obligation) bool {
 	return func(o report.Obligation) bool {
 		for _, s := range subs {
@@ -163,12 +174,12 @@ var registry = map[string]*Property{
 		Rules:      []Rule{rRefuse, only(rToken, 13, whatHas("skip arm"))},
 	},
 	"C09": {
-		Decided:    "Every insertion into a symbol text index happens only when the text is not present yet, imports before locals (ORD-FIRSTWINS); shared tables, local tables and the catalog are written only while being constructed, the builder is writer-private (OWN-IMMUT); NewSymbolTokenBySID looks an ID up only after 0 <= sid <= MaxID() was established (ORD-SIDBOUND).",
-		Necessary:  "An index insert that overwrites gives the highest instead of the lowest ID for a text; a table written after construction renumbers symbols already handed out; an unchecked ID above MaxID is not rejected.",
-		NotDecided: "the offset arithmetic across imports (processImports, findByIDInImports, Adjust) — numeric",
-		Technique:  "SSA dominance facts + store/alias roots with call-graph effect summaries",
-		DesignRef:  "DESIGN.md §3.5, §3.6, §4 C09",
-		Rules:      []Rule{rOrdFirstWins, rOwnImmut, rOrdSidBound},
+		Decided:    "Every insertion into a symbol text index (buildIndex, symbolTableBuilder.Add, Build) happens only when the text is not present yet, with imports consulted before locals, or copies an existing index (ORD-FIRSTWINS); NewSymbolTokenBySID looks an ID up only after 0 <= sid <= MaxID() was established and rejects everything else (ORD-SIDBOUND).",
+		Necessary:  "An index insert that overwrites gives the highest instead of the lowest ID for a text and lets the builder renumber a known symbol; an unchecked ID above MaxID is not rejected.",
+		NotDecided: "the offset arithmetic across imports (processImports, findByIDInImports, Adjust) — numeric; immutability of built tables is decided under C18 (OWN-IMMUT), not here, because a write that keeps the numbering (a lazily built index) does not break this property",
+		Technique:  "SSA dominance facts keyed by canonical access path (comma-ok lookup / FindByName result false before the map update)",
+		DesignRef:  "DESIGN.md §3.5, §4 C09",
+		Rules:      []Rule{rOrdFirstWins, rOrdSidBound},
 	},
 	"C10": {
 		Decided:    "Every successful path of binaryReader.readBVM resets the context to the system table (ORD-BVMRESET); once a top-level struct is recognised as $ion_symbol_table every exit reports 'not a user value' or an error (ORD-LSTHIDE); the symbol table reader dereferences accessor results only under the non-null precondition, so typed nulls in imports/name/version/max_id/symbols do not crash it (NIL-ACC scoped to readlocalsymboltable.go).",
@@ -187,13 +198,13 @@ var registry = map[string]*Property{
 		Rules:      []Rule{rLstFields, rOrdLstFirst, rOrdFirstWins},
 	},
 	"C12": {
-		Decided:    "For all 24 error-returning Writer methods on each writer implementation: the sticky error is tested before any effect on the writer (ERR-GUARD-W) and every returned error is the sticky error (ERR-STICKY-W); every value opened is closed on each success path (ORD-VALUE); Finish re-arms the binary writer before every success exit (ORD-REARM); every panicking pop on the writer-side stacks is dominated by a non-emptiness fact (ORD-POPGUARD, writer obligations); nothing reachable from the output API consults a time-, random- or schedule-dependent source and every map range has an order-insensitive body (OWN-NONDET).",
+		Decided:    "For all 24 error-returning Writer methods on each writer implementation: the sticky error is tested before any effect on the writer (ERR-GUARD-W) and every returned error is the sticky error (ERR-STICKY-W); every value opened is closed on each success path (ORD-VALUE); Finish re-arms the binary writer before every success exit (ORD-REARM); every panicking pop on the writer-side stacks is dominated by a non-emptiness fact (ORD-POPGUARD, writer obligations); nothing in the writer implementation reachable from the Writer methods consults a time-, random- or schedule-dependent source and every map range there has an order-insensitive body (OWN-NONDET, functions outside marshal.go, fields.go and the command).",
 		Necessary:  "A method that works after an earlier error or returns an error it does not remember lets a later Finish return nil (F1–F3, fixed); an unclosed value or a Finish that is not re-armed emits an invalid stream on a nil Finish (F4, fixed); an unguarded pop panics on an illegal call sequence; a nondeterminism source makes the same calls yield different bytes.",
 		NotDecided: "validity of the emitted stream beyond pairing (see C04), nil pointer arguments, WriteNullType with an out-of-range Type (finding F23, TAB-INDEX not built)",
 		Technique:  ssaTech,
 		DesignRef:  "DESIGN.md §3.1, §3.5, §3.6, §4 C12",
 		Rules: []Rule{
-			rGuardW, rStickyW, rOrdValue, rOrdRearm, only(rOrdPopGuard, 2, funcHas("Writer", "writer")), rOwnNondet,
+			rGuardW, rStickyW, rOrdValue, rOrdRearm, only(rOrdPopGuard, 2, funcHas("Writer", "writer")), only(rOwnNondet, 40, posLacks("ion/marshal.go", "ion/fields.go", "cmd/")),
 		},
 	},
 	"C13": {NAReason: "Every clause identified for this property is numeric (NUM-NARROW: no lossy integer conversion on the value path; NUM-BIG; NUM-F32; NUM-EXP32); the NUM engine was not built in this revision and no other rule decides a necessary condition of exact encoding/decoding. Exactness of the VarUInt/VarInt/Int codecs is arithmetic over runtime values. Findings F20 and F25 of DESIGN §6 remain open; F7 and F19 were repaired."},
